@@ -5,6 +5,7 @@ package iorec
 import (
 	"errors"
 	"sync"
+	"time"
 
 	"github.com/ryogrid/SamehadaDB/lib/common"
 	"github.com/ryogrid/SamehadaDB/lib/storage/disk"
@@ -25,6 +26,12 @@ type Rec struct {
 	Ops   []Op
 	// Hook, when set, is called (under the mutex) after every recorded op with its index.
 	Hook func(idx int, op *Op)
+	// Concurrent: do not serialise the device.  A log write is recorded when it has COMPLETED (the inner call has
+	// returned), a page write when it is ISSUED (before the inner call); the mutex is held only while recording.
+	// So the recorded order never shows a log write as durable before it was, nor a page write later than it began.
+	Concurrent bool
+	// LogDelay makes the log device slow (the write stays in flight for that long) in Concurrent mode.
+	LogDelay time.Duration
 }
 
 func NewRec(inner disk.DiskManager) *Rec { return &Rec{Inner: inner} }
@@ -50,6 +57,12 @@ func (r *Rec) Len() int {
 
 func (r *Rec) ReadPage(id types.PageID, b []byte) error { return r.Inner.ReadPage(id, b) }
 func (r *Rec) WritePage(id types.PageID, b []byte) error {
+	if r.Concurrent {
+		r.mu.Lock()
+		r.add(Op{Kind: "P", Page: int32(id), Data: append([]byte{}, b...)})
+		r.mu.Unlock()
+		return r.Inner.WritePage(id, b)
+	}
 	r.mu.Lock()
 	defer r.mu.Unlock()
 	err := r.Inner.WritePage(id, b)
@@ -64,6 +77,16 @@ func (r *Rec) Size() int64                    { return r.Inner.Size() }
 func (r *Rec) RemoveDBFile()                  { r.Inner.RemoveDBFile() }
 func (r *Rec) RemoveLogFile()                 { r.Inner.RemoveLogFile() }
 func (r *Rec) WriteLog(b []byte) error {
+	if r.Concurrent {
+		if r.LogDelay > 0 {
+			time.Sleep(r.LogDelay)
+		}
+		err := r.Inner.WriteLog(b)
+		r.mu.Lock()
+		r.add(Op{Kind: "L", Data: append([]byte{}, b...)})
+		r.mu.Unlock()
+		return err
+	}
 	r.mu.Lock()
 	defer r.mu.Unlock()
 	err := r.Inner.WriteLog(b)
